@@ -161,37 +161,54 @@ func (env *Env) lookupName(name string) (*Val, error) {
 
 // localByName resolves a source-level local variable through debug references.
 func (f *Frame) localByName(name string, env *Env) *Val {
-	var found ssa.Value
-	isAddr := false
-	n := 0
-	for _, b := range f.fn.Blocks {
-		for _, ins := range b.Instrs {
-			d, ok := ins.(*ssa.DebugRef)
-			if !ok || d.Object() == nil || d.Object().Name() != name {
+	type cand struct {
+		x      ssa.Value
+		isAddr bool
+	}
+	collect := func(onlyInLoop bool) []cand {
+		var out []cand
+		seen := map[ssa.Value]bool{}
+		for _, b := range f.fn.Blocks {
+			if onlyInLoop && (env.loop == nil || !env.loop.body[b]) {
 				continue
 			}
-			if _, defined := f.vals[d.X]; !defined {
-				if _, isC := d.X.(*ssa.Const); !isC {
+			for _, ins := range b.Instrs {
+				d, ok := ins.(*ssa.DebugRef)
+				if !ok || d.Object() == nil || d.Object().Name() != name {
 					continue
 				}
-			}
-			if env.loop != nil {
-				// only values defined outside the loop are stable names inside an invariant
-				if vi, ok := d.X.(ssa.Instruction); ok && env.loop.body[vi.Block()] {
-					continue
+				if _, defined := f.vals[d.X]; !defined {
+					if _, isC := d.X.(*ssa.Const); !isC {
+						continue
+					}
+				}
+				if env.loop != nil {
+					// only values defined outside the loop are stable names inside an invariant
+					if vi, ok := d.X.(ssa.Instruction); ok && env.loop.body[vi.Block()] {
+						continue
+					}
+				}
+				if !seen[d.X] {
+					seen[d.X] = true
+					out = append(out, cand{d.X, d.IsAddr})
 				}
 			}
-			if found != d.X {
-				n++
-			}
-			found, isAddr = d.X, d.IsAddr
 		}
+		return out
 	}
-	if n != 1 || found == nil {
+	var cs []cand
+	if env.loop != nil {
+		// the value the loop itself refers to under this name
+		cs = collect(true)
+	}
+	if len(cs) != 1 {
+		cs = collect(false)
+	}
+	if len(cs) != 1 {
 		return nil
 	}
-	v := f.val(found)
-	if isAddr {
+	v := f.val(cs[0].x)
+	if cs[0].isAddr {
 		a := f.enc.addrOfPointer(v)
 		return &Val{T: f.enc.load(env.st, a), Typ: a.typ(), ConstLen: -1}
 	}
